@@ -152,6 +152,20 @@ def mkval(x, kind: int = 0):
 
 
 @command
+def echo(x, a, b="dflt"):
+    """untyped parameters: whatever the arguments evaluate to arrives unchanged"""
+    CALLS.append("echo")
+    return Box((a, b))
+
+
+@command
+def twice(x):
+    """same state type in and out (text -> longer text, int -> larger int)"""
+    CALLS.append("twice")
+    return x + x
+
+
+@command
 def subfail(x, context=None):
     """reports failure through the state it returns: hands back the (failed) state of a sub-evaluation"""
     CALLS.append("subfail")
